@@ -176,6 +176,25 @@ CallerOf(cf, pl) ==
        [] cf = "infunc" -> <<Func("run", <<>>, <<>>, <<For3(Def1("i", N(0)), cond, post, body)>>), ExprS(CallE("run", <<>>))>>
 LoopCalls == {C("loopcall/" \o cf \o "-" \o pl \o "/" \o ff \o (IF dp THEN "-deeper" ELSE ""), <<CalleeOf(ff, dp)>> \o CallerOf(cf, pl) \o <<L("end")>>)
               : cf \in {"for3", "nested", "infunc"}, pl \in {"body", "cond", "post"}, ff \in CalleeLoops, dp \in BOOLEAN}
-All == LoopCalls \cup LoopJumps \cup WorldOrder \cup MixedLogic \cup MixedArith \cup Exprs \cup Calls \cup Stores \cup World \cup Chains \cup Switches \cup Loops
+\* ---- calls whose callee does nothing with its arguments (empty body, constant result, a print only): the arguments are evaluated all the same,
+\* exactly once, in order (round 9: a call of an empty function dropped together with the effects nested in its argument expressions)
+InertCallees == <<Func("sinkI", <<Param("v", "int")>>, <<>>, <<>>), Func("sinkS", <<Param("v", "string")>>, <<>>, <<>>), Func("sink2", <<Param("a", "int"), Param("b", "string")>>, <<>>, <<>>),
+                  Func("constI", <<Param("v", "int")>>, <<"int">>, <<RetS(<<N(7)>>)>>), Func("sayI", <<Param("v", "int")>>, <<>>, <<L("say")>>),
+                  Func("mkS", <<Param("n", "int")>>, <<"[]int">>, <<PrintS(<<StrL("mk"), Var("n")>>), Compound("cnt", "+", N(1)), RetS(<<SliceLit("int", <<N(1), N(2), N(3)>>)>>)>>),
+                  Def1("vals", SliceLit("int", <<N(10), N(20), N(30)>>)), Def1("word", StrL("hello"))>>
+InertInt == <<<<"call", PI(1, N(5))>>, <<"plus", Bin("+", PI(1, N(5)), N(1))>>, <<"grp", Grp(PI(1, N(5)))>>, <<"index", IndexE(Var("vals"), PI(1, N(1)))>>, <<"len", LenE(CallE("mkS", <<N(2)>>))>>,
+              <<"nested", PI(1, PI(2, N(3)))>>, <<"two", Bin("*", PI(1, N(2)), PI(2, N(3)))>>, <<"viaconst", CallE("constI", <<PI(1, N(4))>>)>>, <<"plain", N(3)>>, <<"var", Var("cnt")>>>>
+InertStr == <<<<"itoa", Itoa(PI(1, N(5)))>>, <<"cat", Bin("+", StrL("n="), Itoa(PI(1, N(5))))>>, <<"call", PS(1, StrL("x y"))>>, <<"sub", Substr(Var("word"), PI(2, N(1)), PI(3, N(3)))>>, <<"plain", StrL("p")>>>>
+InertWhere == {"stmt", "loop", "branch", "func"}
+InertAt(w, st) == CASE w = "stmt" -> <<st, L("next"), st>> [] w = "loop" -> <<For3(Def1("i", N(0)), CmpE("<", Var("i"), N(2)), Inc("i"), <<st, PrintS(<<StrL("i"), Var("i")>>)>>)>>
+                    [] w = "branch" -> <<IfElse(CmpE("==", Var("cnt"), N(0)), <<st>>, <<L("else")>>), Switch(Var("cnt"), <<CaseB(N(99), <<L("no")>>)>>, <<st>>, TRUE)>>
+                    [] w = "func" -> <<Func("run", <<>>, <<>>, <<st, L("in run")>>), ExprS(CallE("run", <<>>)), ExprS(CallE("run", <<>>))>>
+Inert == {C("inert/sinkI/" \o InertInt[i][1] \o "/" \o w, InertCallees \o InertAt(w, ExprS(CallE("sinkI", <<InertInt[i][2]>>)))) : i \in 1..Len(InertInt), w \in InertWhere}
+         \cup {C("inert/sayI/" \o InertInt[i][1] \o "/" \o w, InertCallees \o InertAt(w, ExprS(CallE("sayI", <<InertInt[i][2]>>)))) : i \in 1..Len(InertInt), w \in {"stmt", "loop"}}
+         \cup {C("inert/constI-stmt/" \o InertInt[i][1] \o "/" \o w, InertCallees \o InertAt(w, ExprS(CallE("constI", <<InertInt[i][2]>>)))) : i \in 1..Len(InertInt), w \in {"stmt", "func"}}
+         \cup {C("inert/constI-print/" \o InertInt[i][1], InertCallees \o <<Print1(CallE("constI", <<InertInt[i][2]>>)), Def1("k", CallE("constI", <<InertInt[i][2]>>)), Print1(Var("k"))>>) : i \in 1..Len(InertInt)}
+         \cup {C("inert/sinkS/" \o InertStr[i][1] \o "/" \o w, InertCallees \o InertAt(w, ExprS(CallE("sinkS", <<InertStr[i][2]>>)))) : i \in 1..Len(InertStr), w \in InertWhere}
+         \cup {C("inert/sink2/" \o InertInt[i][1] \o "-" \o InertStr[j][1], InertCallees \o <<ExprS(CallE("sink2", <<InertInt[i][2], InertStr[j][2]>>)), L("after")>>) : i \in 1..Len(InertInt), j \in 1..Len(InertStr)}
+All == Inert \cup LoopCalls \cup LoopJumps \cup WorldOrder \cup MixedLogic \cup MixedArith \cup Exprs \cup Calls \cup Stores \cup World \cup Chains \cup Switches \cup Loops
 ASSUME ndJsonSerialize("fam.ndjson", SetToSeq(All))
 =============================================================================
